@@ -3,7 +3,7 @@
 import glob, json, os, re, subprocess, sys
 bad = 0
 ROOT = os.path.dirname(os.path.dirname(os.path.abspath(__file__)))
-for d in sorted(glob.glob(ROOT + '/seeded/*/')):
+for d in sorted([d for d in glob.glob(ROOT + '/seeded/*/') if '/_' not in d]):
     m = json.load(open(d + 'meta.json'))
     props = re.findall(r'C\d\d', m['detection']['check'].split('(')[0]) or [m['property']]
     prop = props[0]
